@@ -12,7 +12,14 @@ def child(args):
     ctx = common.Ctx(args.pid, args.tier, args.seed, args.replay)
     mod = importlib.import_module("harness.%s" % args.pid.lower())
     try:
-        mod.run(ctx)
+        if args.replay and hasattr(mod, "replay"):
+            data = json.load(open(args.replay))
+            print("replaying %s (%s)" % (args.replay, data.get("signature")))
+            mod.replay(ctx, data)
+        else:
+            if args.replay:
+                print("note: %s has no dedicated replay entry point; running the full check (its corpus/generators include the replayed family)" % args.pid)
+            mod.run(ctx)
     except Exception:
         tb = traceback.format_exc()
         ctx.fail("harness-exception", "the check itself raised: " + tb, replay=dict(traceback=tb), has_input=False)
